@@ -392,8 +392,37 @@ def numbers(ses, rep):
                 rep.add(oid, status, v)
 
 
+def replay_multi_config():
+    """files with different quote styles formatted by ONE process (one worker thread): each literal keeps its value - a rewrite remembered
+    from a file under another style would carry escapes made for the other delimiter"""
+    from .. import clireplay
+    binp = common.native_build("full")
+    src = "local a = \"it's\"\nlocal b = 'say \"hi\"'\nlocal c = 'plain'\nlocal d = \"both ' and \\\"\"\n"
+    want = [py_decode(t[1][1:-1]) for t in luaexpr.tokenize(src) if t[0] == "str"]
+    for s1 in STYLES:
+        for s2 in STYLES:
+            if s1 == s2:
+                continue
+            files = {"d1/stylua.toml": f'quote_style = "{s1}"\n', "d1/m.lua": src, "d2/stylua.toml": f'quote_style = "{s2}"\n', "d2/m.lua": src}
+            for order in (["d1/m.lua", "d2/m.lua"], ["d2/m.lua", "d1/m.lua"]):
+                r = clireplay.run_cli(binp, files, ["--num-threads", "1"] + order)
+                for f in order:
+                    out = r["after"][f][0].decode("utf-8", "replace")
+                    try:
+                        got = [py_decode(t[1][1:-1]) for t in luaexpr.tokenize(out) if t[0] == "str"]
+                    except luaexpr.LuaSyntaxError as e:
+                        return f"{s1} and {s2} in one run ({order}): {f} no longer lexes: {out!r}", {"argv": ["--num-threads", "1"] + order, "styles": [s1, s2]}
+                    if got != want:
+                        return f"{s1} and {s2} in one run ({order}): the literals of {f} changed their values: {out!r}", {"argv": ["--num-threads", "1"] + order, "styles": [s1, s2]}
+    return None, {}
+
+
 def fallback(rep):
     """kernels undecided: the literal and number batteries are run; only a changed value is reported"""
+    v, rec = replay_multi_config()
+    if v:
+        rep.add("battery/multi-config", rep.violation({"obligation": "battery-after-undecided-kernel", "scenario": "multi-config"}, {"what": "kernel undecided; several quote styles in one process",
+                                                                                                                             "observed": v, "kind": "multi-config", **rec}), v)
     hit = literal_battery()
     if hit:
         v, rec = hit
@@ -413,6 +442,12 @@ def replay(path):
             print(f"VIOLATION property=C04 replay={path}")
             return 1
         return 0
+    if r.get("kind") == "multi-config":
+        v, rec = replay_multi_config()
+        print(v or "literals keep their values when several quote styles are formatted by one process")
+        if v:
+            print(f"VIOLATION property=C04 replay={path}")
+        return 1 if v else 0
     if "c01_info" in r:
         from . import c01
         v, rec = c01.REPLAYS[r["kind"]](r["c01_info"])
